@@ -34,6 +34,9 @@ def explore(ctx, art):
     lines += ["case tcp %s stalled %s" % (o, c) for o in OPS for c in CAUSES]
     # server side (real sockets, real time): a blocked DiscoveryRequest; Stop() with 0/1/3 connections whose handlers block
     lines += ["case udp discover live %s" % c for c in ("cancel", "deadline", "close")]
+    # ... and the "before send" point of a discovery: issued before the server serves (the library lets it wait for Serve), and
+    # Serve never comes (seeded C09-U; on the tree before fix F38 the call ignored its own context there)
+    lines += ["case udp discover liveunserved %s" % c for c in ("cancel", "deadline", "close")]
     lines += ["case %s srvstop k%d stop" % (t, k) for t in ("udp", "tcp", "dtls") for k in (0, 1, 3)]
     # ... and with one more peer that connects right before Stop() while the application's OnNewConn callback for it is still
     # running (150 ms): the connection is not in the server's table yet, only its own context can tell it about the stop
